@@ -264,6 +264,11 @@ where
         rscale: &[T],
         cscale: Option<T>,
     ) -> Result<(), SparseFormatError> {
+        // check every index before writing anything, so that a
+        // rejected update leaves the data (and the KKT copy) untouched
+        if self.clone().any(|(&idx, _)| idx >= M.nzval.len()) {
+            return Err(SparseFormatError::IncompatibleDimension);
+        }
         for (&idx, &value) in self.clone() {
             if idx >= M.nzval.len() {
                 return Err(SparseFormatError::IncompatibleDimension);
@@ -363,6 +368,11 @@ where
         vscale: &[T],
         cscale: Option<T>,
     ) -> Result<(), SparseFormatError> {
+        // check every index before writing anything, so that a
+        // rejected update leaves the data (and its cached norm) untouched
+        if self.clone().any(|(&idx, _)| idx >= v.len()) {
+            return Err(SparseFormatError::IncompatibleDimension);
+        }
         for (&idx, &value) in self.clone() {
             if idx >= v.len() {
                 return Err(SparseFormatError::IncompatibleDimension);
